@@ -189,8 +189,14 @@ pub struct Exec {
     pub restarts: usize,
 }
 
+/// The default scheduler: continue the running thread; otherwise the lowest thread that is not in a timed wait;
+/// a timeout elapses by default only when nothing else can run.
+fn default_of(runnable: &[usize], timed: &[usize], current: Option<usize>) -> usize {
+    current.unwrap_or_else(|| runnable.iter().copied().find(|t| !timed.contains(t)).unwrap_or(runnable[0]))
+}
+
 fn default_choice(c: &shim::Choice) -> usize {
-    c.current.unwrap_or(c.runnable[0])
+    default_of(c.runnable, c.timed, c.current)
 }
 
 pub fn execute(script: &Script, policy: &Policy) -> Exec {
@@ -327,13 +333,14 @@ pub fn execute(script: &Script, policy: &Policy) -> Exec {
     Exec { fails, trace: out.trace, inconclusive, restarts }
 }
 
+/// switches away from a thread that could continue, plus timeouts made to elapse while something else could run
 fn preemptions(trace: &[shim::Step], upto: usize) -> usize {
-    trace[..upto].iter().filter(|s| s.current.is_some() && s.current != Some(s.chosen)).count()
+    trace[..upto].iter().filter(|s| (s.current.is_some() && s.current != Some(s.chosen)) || (s.timed.contains(&s.chosen) && s.chosen != default_of(&s.runnable, &s.timed, s.current))).count()
 }
 
 /// deviations from the default scheduler (continue the running thread, else the lowest thread id)
 fn delays(trace: &[shim::Step], upto: usize) -> usize {
-    trace[..upto].iter().filter(|s| s.chosen != s.current.unwrap_or(s.runnable[0])).count()
+    trace[..upto].iter().filter(|s| s.chosen != default_of(&s.runnable, &s.timed, s.current)).count()
 }
 
 pub struct DfsResult {
@@ -408,13 +415,14 @@ pub fn dfs(script: &Script, bound: usize, delay: bool, max_exec: u64, ctx: &Ctx,
                 if alt == st.chosen {
                     continue;
                 }
+                let dflt = default_of(&st.runnable, &st.timed, st.current);
                 let cost = if delay {
-                    if alt != st.current.unwrap_or(st.runnable[0]) {
+                    if alt != dflt {
                         1
                     } else {
                         0
                     }
-                } else if st.current.is_some() && st.current != Some(alt) {
+                } else if (st.current.is_some() && st.current != Some(alt)) || (st.timed.contains(&alt) && alt != dflt) {
                     1
                 } else {
                     0
